@@ -175,6 +175,19 @@ def discharge(u, ob, cxs, st):
             if ok1 and ok2:
                 ob.status = "D1" if v.is_const() else "D2"
                 ob.how = "%s in [%d, %d] (%s/%s)" % (op, r[0], r[1], h1, h2)
+                return
+            # finite-domain evaluation: both operands are functions of one `x % c`
+            whole = ("bin", op, a, c)
+            lv = A.finite_leaves(whole, cx)
+            if lv and len(lv) == 1:
+                (key, n), = lv.items()
+                try:
+                    f = A.compile_expr(whole, [key])
+                    good = all(r[0] <= f(i) <= r[1] for i in range(n))
+                except A.NoEval:
+                    good = False
+                if good:
+                    ob.status, ob.how = "D1", "evaluated for all %d values of the common `x %% %d` sub-expression: %s stays in [%d, %d]" % (n, n, op, r[0], r[1])
             return
         if k == "bounds":
             m = t["msg"]
